@@ -19,3 +19,11 @@ package main
 //@   oncall Remove: requires $arg0 != name
 //@   oncall writeInplace: requires $arg1 != name
 //@   ensures err == nil ==> $attempts == 1 && $last == nil
+
+//# extract writes to the destination path itself only when the caller asked for it (--in-place); in every
+//# other case the assembly goes through writeWithTmpFile, whatever the destination is or is not
+//@ func runExtract
+//@   prop C08
+//@   safety none
+//@   oncall writeInplace: requires opt.inPlace
+//@   oncall writeWithTmpFile: requires !opt.inPlace
